@@ -389,6 +389,15 @@ class Variable(BaseModel, Serializable):
 
             return transform.transform(values, inverse=inverse, transform_args=transform_args)
 
+        def _normalize_hyperparams(hyperparams, transform, domain, dist_args):
+            """Send `(*domain, mu, std)` through a transform. `std` is a length, not a location, so it only scales."""
+            new_params = _normalize_single(hyperparams, transform, False, domain, dist_args)
+            if dist_args:
+                mu_plus_std = np.atleast_1d(dist_args[0] + dist_args[1])
+                shifted = _normalize_single(mu_plus_std, transform, False, domain, dist_args)
+                new_params[-1] = np.abs(shifted[0] - new_params[-2])
+            return new_params
+
         domain = self.get_domain() or ()
         dist_args = self.distribution.dist_args if normal_dist else []
         if isinstance(domain, list):
@@ -399,7 +408,7 @@ class Variable(BaseModel, Serializable):
             hyperparams = [np.hstack((domain, dist_args))]
             for i, transform in enumerate(self.norm):
                 domain, dist_args = tuple(hyperparams[i][:2]), tuple(hyperparams[i][2:])
-                hyperparams.append(_normalize_single(hyperparams[i], transform, False, domain, dist_args))
+                hyperparams.append(_normalize_hyperparams(hyperparams[i], transform, domain, dist_args))
 
             # Now denormalize in reverse
             hp_idx = -2
@@ -413,7 +422,7 @@ class Variable(BaseModel, Serializable):
             for transform in self.norm:
                 domain, dist_args = tuple(hyperparams[:2]), tuple(hyperparams[2:])
                 values = _normalize_single(values, transform, denorm, domain, dist_args)
-                hyperparams = _normalize_single(hyperparams, transform, denorm, domain, dist_args)
+                hyperparams = _normalize_hyperparams(hyperparams, transform, domain, dist_args)
 
         return values
 
